@@ -10,7 +10,7 @@ CONSTANTS
   Quantum = "step"
   OrderMode = "all"
   PresMode = "subset"
-  MaxRun = 1
+  RunLens = {1}
   Deltas = {}
   Mirror = FALSE
 CHECK_DEADLOCK FALSE
